@@ -98,6 +98,7 @@ func arrObserve() []*model.N {
 	for _, v := range arrVars {
 		out = append(out, model.Print(model.Bin("+", model.CallN(model.BiLen, model.Id(v)), model.Num(0))))
 	}
+	out = append(out, model.Print(model.Arr(model.Id("a"), model.Id("b"), model.Id("a"))))
 	return out
 }
 
